@@ -71,6 +71,8 @@ pub fn case_strat() -> impl Strategy<Value = Case> {
             let probe = match probe {
                 Probe::Farm(FOp::ClosePos { user, pos, part, by_other, .. }) => Probe::Farm(FOp::ClosePos { user, pos, part, claim_first: false, by_other }),
                 Probe::Farm(FOp::WithdrawPos { user, pos, emergency, by_other, .. }) => Probe::Farm(FOp::WithdrawPos { user, pos, emergency, by_other, at_unlock: None }),
+                // (the long-lived-position composite is many messages: probe its first one)
+                Probe::Farm(FOp::Churn { user, lp, amount, .. }) => Probe::Farm(FOp::Open { user, lp, amount, dur: crate::world::DAY, id: None, for_other: None }),
                 p => p,
             };
             Case { cfg, prefix, probe }
@@ -390,7 +392,7 @@ fn build_frozen(c: &FrozenCase, st: &mut Stats) -> Result<FarmSim, String> {
         sim.step(p, st)?;
     }
     for (owner, reward, amount, len) in c.old_farms.iter() {
-        sim.step(&FOp::Farm { user: *owner, lp: 0, reward: *reward, amount: *amount, start: Some(1), len: Some(*len), id: None, funds: Funds::Exact }, st)?;
+        sim.step(&FOp::Farm { user: *owner, lp: 0, reward: *reward, amount: *amount, start: Some(1), len: Some(*len as u16), id: None, funds: Funds::Exact }, st)?;
     }
     sim.step(&FOp::Advance(Adv::Epochs(3)), st)?;
     for u in c.claims.iter() {
